@@ -87,6 +87,33 @@ CHECKS["C20"] = dict(
          "injected pure harmonic by Psi4_lm with converging error.",
     design="4/C20")
 
+CHECKS["C10"] = dict(
+    technique="Hypothesis-generated exact vacuum / non-vacuum spacetimes, "
+              "cache states, tetrad choices and fluid velocities -> "
+              "two-resolution convergence oracle against exact Weyl/E/B, "
+              "algebraic-symmetry and Petrov-type relations, metamorphic "
+              "invariance of I, J between orthonormal tetrads",
+    text="Weyl tensor in both cache states vs the exact Weyl tensor and vs "
+         "each other, its symmetries and trace-freeness, E/B parts vs exact "
+         "contractions, tetrad orthonormality, 16 Re I = Kretschmann and "
+         "I^3 = 27 J^2 on vacuum data, I/J invariance under a change of "
+         "fluid velocity, a harness-rotated tetrad and (alpha=1, beta=0) "
+         "quasi-Kinnersley vs Eulerian frames.",
+    design="4/C10")
+CHECKS["C13"] = dict(
+    technique="Hypothesis-generated save/read operation histories "
+              "(st.lists of operations interpreted against a dict model keyed "
+              "by (layout, it, var, rl)); exact-equality round-trip oracle, "
+              "argument-immutability digests; oracle self-tested against an "
+              "in-memory reference and seven injected bugs",
+    text="After any sequence of saves (subsets, permutations, overwrites, "
+         "None entries, tensor/scalar variables, levels, with/without "
+         "trailing slash, ET-style layout) every read returns exactly the "
+         "most recently saved array for each (iteration, variable, level), "
+         "None otherwise, with one entry per requested iteration and "
+         "untouched caller arguments.",
+    design="4/C13")
+
 NOT_YET = "check not built yet in this session (see DESIGN.md section 4)"
 
 
